@@ -265,6 +265,11 @@ def _unusable(v, env):
         return 'reply.code-is-%s' % (type(reply.code).__name__ if not isinstance(reply.code, str) else 'not-3-digits')
     if not isinstance(reply.message, str):
         return 'reply.message-is-%s' % type(reply.message).__name__
+    if isinstance(v, RelayError) and reply.code[0] == '2':
+        # the reply of a failure is what an edge in front of a ProxyQueue hands to its client: a failure that
+        # carries a POSITIVE reply is "a failure object returned as though it were a success" one step later
+        # (1xx / 3xx replies of the next hop are passed on truthfully and are not demanded to be rewritten)
+        return 'error-carries-2xx-reply'
     uses = [('bytes(reply)', lambda: bytes(reply)), ('str(reply)', lambda: str(reply)),
             ('reply.message+str', lambda: reply.message + ' (Too many retries)'),
             ('reply==copy', lambda: reply == Reply().copy(reply))]
